@@ -37,6 +37,15 @@ def uidOr (u : Option String) (ph : Option String) : Option String :=
   | some s => if s = "" then ph else some s
   | none => ph
 
+/-- Activate, Revoke, Destroy and MAC test the truth value of the Unique Identifier OBJECT (`payload.unique_identifier`
+is the primitive there, not its text: engine.py l.2782, 2828, 2874, 3200), which is true whatever it holds: an EMPTY
+identifier is used as it is and addresses nothing; the other handlers test the text, for which empty is false.
+(Found by the end-to-end check M17, round 8: batch [Create; Activate ""] under Continue.) -/
+def uidOrObj (u : Option String) (ph : Option String) : Option String :=
+  match u with
+  | some s => some s
+  | none => ph
+
 def showUid (u : Option String) : String :=
   match u with
   | some s => s
@@ -463,7 +472,7 @@ def opGetAttributeList (c : Ctx) (e : Engine) (uid : Option String) : R (Effect 
 
 /-! ### Activate / Revoke / Destroy -/
 def opActivate (c : Ctx) (e : Engine) (uid : Option String) : R (Effect × Data) := do
-  let uid := uidOr uid e.placeholder
+  let uid := uidOrObj uid e.placeholder
   let o ← getWithAccess c e uid Op.activate
   match o.state with
   | none => kerr Rsn.illegalOperation "The object has no state and cannot be activated."
@@ -476,7 +485,7 @@ def opRevoke (c : Ctx) (e : Engine) (uid : Option String) (code : Option Nat) : 
   match code with
   | none => kerr Rsn.invalidField "revocation reason code must be specified"
   | some code =>
-    let uid := uidOr uid e.placeholder
+    let uid := uidOrObj uid e.placeholder
     let o ← getWithAccess c e uid Op.revoke
     match o.state with
     | none => kerr Rsn.illegalOperation "The object has no state and cannot be revoked."
@@ -489,7 +498,7 @@ def opRevoke (c : Ctx) (e : Engine) (uid : Option String) (code : Option Nat) : 
       else pure (.update { o with state := some St.deactivated }, .uid (showUid uid))
 
 def opDestroy (c : Ctx) (e : Engine) (uid : Option String) : R (Effect × Data) := do
-  let uid := uidOr uid e.placeholder
+  let uid := uidOrObj uid e.placeholder
   let o ← getWithAccess c e uid Op.destroy
   if o.state == some St.active then kerr Rsn.permissionDenied "Object is active and cannot be destroyed."
   else pure (.delete o.uid, .uid (showUid uid))
@@ -548,7 +557,7 @@ def opSignatureVerify (c : Ctx) (e : Engine) (uid : Option String) (hasParams : 
 
 def opMac (c : Ctx) (e : Engine) (uid : Option String) (paramAlg : Option Nat) (hasData : Bool) (cr : Crypto) :
     R (Effect × Data) := do
-  let uid := uidOr uid e.placeholder
+  let uid := uidOrObj uid e.placeholder
   let o ← getWithAccess c e uid Op.get
   if paramAlg.isNone && !(o.isKey && o.alg.isSome) then
     kerr Rsn.permissionDenied "The cryptographic algorithm must be specified for the MAC operation" else
